@@ -597,6 +597,11 @@ impl<'a, W: Write + 'a> ser::Serializer for &'a mut Serializer<W> {
     // None is serialized as Bson::Null in BSON
     #[inline]
     fn serialize_none(self) -> Result<Self::Ok, Self::Error> {
+        // null has a zero-width encoding: inside an array only the (shared)
+        // constructor of the first element is written
+        if let IsArrayElement::OtherElement = self.is_array_elem {
+            return Ok(());
+        }
         let buf = [EncodingCodes::Null as u8];
         self.writer.write_all(&buf).map_err(Into::into)
     }
@@ -612,6 +617,11 @@ impl<'a, W: Write + 'a> ser::Serializer for &'a mut Serializer<W> {
 
     #[inline]
     fn serialize_unit(self) -> Result<Self::Ok, Self::Error> {
+        // null has a zero-width encoding: inside an array only the (shared)
+        // constructor of the first element is written
+        if let IsArrayElement::OtherElement = self.is_array_elem {
+            return Ok(());
+        }
         // unit is serialized as Bson::Null in BSON
         let buf = [EncodingCodes::Null as u8];
         self.writer.write_all(&buf).map_err(Into::into)
